@@ -57,7 +57,7 @@ FoldPk(x, pks, maxn) == IF pks = <<>> THEN x
 MonStep(mm, e) ==
   LET op == e.op  obs == e.obs
       newTalks == [i \in 1..Cardinality(Evs(e, "TalkRequest")) |->
-                     LET x == obs.ev[SetToSeq(Evs(e, "TalkRequest"))[i]] IN [tr |-> x.tr, rid |-> x.rid, from |-> x.from]]
+                     LET x == obs.ev[SetToSeq(Evs(e, "TalkRequest"))[i]] IN [tr |-> x.tr, rid |-> x.rid, from |-> x.from, src |-> IF op.o = "request_in" THEN op.src ELSE "?"]]
       newResp == [i \in 1..Cardinality(TalkResp(e)) |->
                      LET x == obs.hin[SetToSeq(TalkResp(e))[i]] IN [rid |-> x.rid, to |-> x.to, payload |-> x.body.resp]]
       newReqs == [i \in 1..Cardinality(Hin(e, "Request")) |->
@@ -88,14 +88,14 @@ MonStep(mm, e) ==
                 !.table = obs.table, !.local = obs.local]
 
 \* ------------------------------------------------------------------ C20
-TalkOf(mm, tr) == IF \E i \in 1..Len(mm.talks) : mm.talks[i].tr = tr THEN mm.talks[CHOOSE i \in 1..Len(mm.talks) : mm.talks[i].tr = tr] ELSE [tr |-> 0, rid |-> "?", from |-> "?"]
+TalkOf(mm, tr) == IF \E i \in 1..Len(mm.talks) : mm.talks[i].tr = tr THEN mm.talks[CHOOSE i \in 1..Len(mm.talks) : mm.talks[i].tr = tr] ELSE [tr |-> 0, rid |-> "?", from |-> "?", src |-> "?"]
 C20Viol(mm, m2, e) ==
   LET op == e.op  obs == e.obs IN
   (IF \E i, j \in 1..Len(m2.tresp) : i # j /\ m2.tresp[i].rid = m2.tresp[j].rid /\ m2.tresp[i].to = m2.tresp[j].to THEN {"C20.TwoResponses"} ELSE {})
   \cup (IF op.o \in {"talk_respond", "talk_drop"} /\ ~Unres(e) /\ mm.running
         THEN LET tk == TalkOf(mm, op.tr)
                  want == IF op.o = "talk_respond" THEN "616e73776572" ELSE "" IN
-             IF Cardinality({i \in TalkResp(e) : obs.hin[i].rid = tk.rid /\ obs.hin[i].to = tk.from /\ obs.hin[i].body.resp = want}) = 1
+             IF Cardinality({i \in TalkResp(e) : obs.hin[i].rid = tk.rid /\ obs.hin[i].to = tk.from /\ obs.hin[i].addr = tk.src /\ obs.hin[i].body.resp = want}) = 1
                 /\ Cardinality(TalkResp(e)) = 1 THEN {} ELSE {"C20.NotAnsweredOnce"}
         ELSE IF TalkResp(e) # {} /\ mm.running THEN {"C20.SpuriousResponse"} ELSE {})
   \cup (IF op.o \in {"talk_respond", "talk_drop"} /\ ~Unres(e) /\ ~mm.running /\ op.ret \notin {"Err(ChannelClosed)", "dropped"} THEN {"C20.AfterShutdown"} ELSE {})
@@ -116,7 +116,7 @@ C14Viol(mm, e) ==
         own == {r \in sent : \E q \in 1..99 : r = "L:" \o ToString(q)}
         others == sent \ own IN
     (IF R = {} THEN {"C14.NoAnswer"} ELSE {})
-    \cup (IF \E i \in R : obs.hin[i].rid # op.rid \/ obs.hin[i].to # op.peer THEN {"C14.WrongIdOrPeer"} ELSE {})
+    \cup (IF \E i \in R : obs.hin[i].rid # op.rid \/ obs.hin[i].to # op.peer \/ obs.hin[i].addr # op.src THEN {"C14.WrongIdOrPeer"} ELSE {})
     \cup (IF \E i \in R : obs.hin[i].body.total # Cardinality(R) THEN {"C14.Total"} ELSE {})
     \cup (IF \E i \in R : obs.hin[i].wire > MAXWIRE THEN {"C14.TooBig"} ELSE {})
     \cup (IF (own # {}) # (0 \in ds) THEN {"C14.OwnRecord"} ELSE {})
@@ -127,7 +127,7 @@ C14Viol(mm, e) ==
     \cup (IF Cardinality(others) > mm.cfg.maxnodes \/ nsent # Cardinality(sent) THEN {"C14.TooManyOrDuplicate"} ELSE {})
   ELSE IF op.body.t = "ping" /\ Get(op, "from", "v4") # "z" THEN
     LET R == {i \in Hin(e, "Response") : obs.hin[i].body.t = "pong"} IN
-    IF Cardinality(R) = 1 /\ \A i \in R : obs.hin[i].rid = op.rid /\ obs.hin[i].to = op.peer /\ obs.hin[i].body.seq = mm.local.seq
+    IF Cardinality(R) = 1 /\ \A i \in R : obs.hin[i].rid = op.rid /\ obs.hin[i].to = op.peer /\ obs.hin[i].addr = op.src /\ obs.hin[i].body.seq = mm.local.seq
                                           /\ obs.hin[i].body.sock = op.src
     THEN {} ELSE {"C14.Pong"}
   ELSE {}
